@@ -39,7 +39,7 @@ def run_programs(chk, n):
         chk.branch(list(g.features.keys()))
     reps = rc.batch(progs)
     for p, (rep, sp) in zip(progs, reps):
-        real = tplgen.run_real(p, limit=3.0)
+        real = tplgen.run_real(p, limit=20.0)
         chk.count("programs", 1, validated=1)
         chk.errkind(real["err"] or "ok")
         chk.nontrivial(real["out"] or real["err"])
